@@ -220,8 +220,16 @@ class Unit:
         same query with inputs pinned to small random values."""
         import random
         rng = random.Random(hash((self.name, label, "div")) & 0xFFFF)
-        for _ in range(6):
-            values = ctx.diverse_model(rng, bad_e)
+        cands = list(self.hunt_candidates(ctx))[:64]
+        for i in range(len(cands) + 6):
+            if i < len(cands):
+                # the unit's own suggestions (partial assignments) for inputs at which an over-approximating stub and the real
+                # function it stands for are likely to differ: still a model of the failing query, completed by the solver
+                values = ctx.model_of_pc(bad_e, *[ctx.inputs[k] == _val(v, ctx.inputs[k]) for k, v in cands[i].items() if k in ctx.inputs])
+                if values is None:
+                    continue
+            else:
+                values = ctx.diverse_model(rng, bad_e)
             if values is None:
                 return False
             status, detail = self.replay(label, values)
